@@ -64,3 +64,31 @@ Theorem C06_success_means_valid_full_partial : forall inp d, input_wf inp -> bui
   forallb r_splits_concat (i_recs inp) = true -> dict_valid_full d = true.
 Proof. exact (build_valid_full_partial gen_bfacts C06_generated_guards_ok). Qed.
 Print Assumptions C06_success_means_valid_full_partial.
+
+(* ---- repeated compile calls on one builder (compile takes &mut self; a caller may retry after a sink failure) ---- *)
+
+(* facts: ConnBuffer::write_to writes &self.matrix and leaves it in place; nothing reachable from DictBuilder::compile takes
+   &mut self of, assigns to, or moves out of builder state (the reporter aside) *)
+Fact C06_write_to_keeps_matrix : BuildGuards.conn_write_keeps_matrix = true.
+Proof. vm_compute. reflexivity. Qed.
+
+Fact C06_compile_mutates_no_builder_state : BuildGuards.compile_mutated_state = [].
+Proof. vm_compute. reflexivity. Qed.
+
+Lemma session_is_keeping : session = run_session gen_bfacts true.
+Proof. unfold session. rewrite C06_write_to_keeps_matrix. reflexivity. Qed.
+
+(* idempotence of compile: whatever calls were made before (successes, sink failures at any byte), each call on the same
+   builder gives exactly what it gives on the untouched builder *)
+Theorem C06_compile_idempotent : forall ks b total moff,
+  session b total moff ks = map (fun k => snd (compile_step gen_bfacts true b total moff k)) ks.
+Proof. rewrite session_is_keeping. exact (session_idempotent gen_bfacts). Qed.
+Print Assumptions C06_compile_idempotent.
+
+(* after any history of calls on a builder, a call that reports success has written the complete dictionary of a fresh build
+   of the same input (and its sink took all of it): never success with a different / truncated dictionary *)
+Theorem C06_retry_is_fresh_build : forall inp ks total moff k d c,
+  nth_error (session (fresh_builder inp) total moff (ks ++ [k])) (List.length ks) = Some (Ok (d, c)) ->
+  c = true /\ build inp = Ok d /\ total <= k.
+Proof. rewrite session_is_keeping. exact (retry_is_fresh_build gen_bfacts). Qed.
+Print Assumptions C06_retry_is_fresh_build.
